@@ -233,3 +233,150 @@ pub fn part_exec(tier: Tier) -> Part {
     part.bounds = json!({"bases": bases.len(), "operators": ops_full.len(), "depth": if tier == Tier::Thorough { 3 } else { 2 }});
     part
 }
+
+/// C08 (c): boundary-valued and ill-typed arguments for the data requests of the DAP adapter.
+pub fn part_dap_args(tier: Tier) -> Part {
+    use crate::c15d::Dap;
+    use crate::isession::ISession;
+    use serde_json::{Value, json};
+    use std::time::Duration;
+    let mut part = Part::new("c08_dap_arguments");
+    part.rule = "through the real DAP adapter, stopped at a breakpoint: ~400 requests for 22 stop-time commands (stackTrace, scopes, variables, setVariable, evaluate, setExpression, completions, readMemory, writeMemory, disassemble, dataBreakpointInfo, setDataBreakpoints, breakpointLocations, gotoTargets, goto, restartFrame, stepInTargets, exceptionInfo, source, modules, loadedSources, terminateThreads) with missing, ill-typed, negative, zero, huge (2^31, 2^53, 2^63) and dangling arguments; each request gets exactly one response, the adapter stays alive (a final `threads` is answered), nothing takes longer than 10 s, the text of the debuggee is unchanged and the program continues to its normal end".into();
+    let prog = crate::corpus::generate_custom("p_dapdata", crate::c15d::FN_TEXT, "    a = a.wrapping_add(dv(a));");
+    let built = match crate::corpus::build(&prog, &crate::corpus::Config::default_cfg()) {
+        Ok(b) => b,
+        Err(e) => {
+            part.violate("MACHINERY:build", e, json!(null));
+            return part;
+        }
+    };
+    let native = std::process::Command::new(&built.exe).output().map(|o| String::from_utf8_lossy(&o.stdout).to_string()).unwrap_or_default();
+    let src_text = std::fs::read_to_string(&built.src_path).unwrap_or_default();
+    let line = src_text.lines().position(|l| l.contains("acc = acc.wrapping_add(1);")).map(|i| i as u64 + 1).unwrap_or(0);
+    let replay = json!({"engine": "c08-dap-args", "exe": built.exe});
+    let sess = match ISession::start("dap", &json!({"exe": built.exe, "main_entry_sp": 0})) {
+        Ok(s) => s,
+        Err(e) => {
+            part.violate("MACHINERY:worker", e, replay);
+            return part;
+        }
+    };
+    let mut d = Dap { sess, seq: 0, pid: 0 };
+    let src = json!({"path": built.src_path, "name": built.program.src_file});
+    let run = (|| -> Result<(), String> {
+        d.send("initialize", json!({"adapterID": "bsmc"}))?;
+        d.send("launch", json!({"program": built.exe, "args": []}))?;
+        d.send("setBreakpoints", json!({"source": src, "breakpoints": [{"line": line}]}))?;
+        let cd = d.send("configurationDone", json!({}))?;
+        let tid = cd["wire"].as_array().and_then(|w| w.iter().find(|m| m["event"] == "stopped").and_then(|m| m["body"]["threadId"].as_i64())).ok_or("no stopped event")?;
+        let st = d.send("stackTrace", json!({"threadId": tid}))?;
+        let fid = st["resp"]["body"]["stackFrames"][0]["id"].as_i64().unwrap_or(0);
+        let sc = d.send("scopes", json!({"frameId": fid}))?;
+        let vref = sc["resp"]["body"]["scopes"][0]["variablesReference"].as_i64().unwrap_or(0);
+        let text0 = {
+            let o = d.send("threads", json!({}))?;
+            o["wire"].clone()
+        };
+        let _ = text0;
+        let nums: Vec<Value> = vec![json!(-1), json!(0), json!(1), json!(2147483647i64), json!(2147483648i64), json!(9007199254740993i64), json!(i64::MAX), json!(i64::MIN), json!(1.5), json!("7"), json!(null), json!(true), json!([1]), json!({"a": 1})];
+        let strs: Vec<Value> = vec![json!(""), json!("v_u8"), json!("nosuch"), json!("v_arr[18446744073709551615]"), json!("*(*mut u8)0x0"), json!("((("), json!("v_arr[0..1000000000000]"), json!("\u{0}"), json!("0x"), json!("0xffffffffffffffffff"), json!("-0x10"), json!(17), json!(null), json!(["x"])];
+        let mut reqs: Vec<(&str, Value)> = vec![];
+        for n in &nums {
+            reqs.push(("stackTrace", json!({"threadId": n})));
+            reqs.push(("stackTrace", json!({"threadId": tid, "startFrame": n, "levels": n})));
+            reqs.push(("scopes", json!({"frameId": n})));
+            reqs.push(("variables", json!({"variablesReference": n})));
+            reqs.push(("variables", json!({"variablesReference": vref, "start": n, "count": n})));
+            reqs.push(("setVariable", json!({"variablesReference": n, "name": "v_u8", "value": "1"})));
+            reqs.push(("readMemory", json!({"memoryReference": "0x7fffffffe000", "offset": n, "count": 8})));
+            reqs.push(("readMemory", json!({"memoryReference": "0x7fffffffe000", "count": n})));
+            reqs.push(("writeMemory", json!({"memoryReference": "0x10", "offset": n, "data": "AAAA"})));
+            reqs.push(("disassemble", json!({"memoryReference": "0x555555555000", "instructionCount": n, "instructionOffset": n, "offset": n})));
+            reqs.push(("restartFrame", json!({"frameId": n})));
+            reqs.push(("stepInTargets", json!({"frameId": n})));
+            reqs.push(("gotoTargets", json!({"source": src, "line": n})));
+            // (a non-negative integer target is an address the adapter is asked to jump to: obeying
+            // it is correct and wrecks the program, so only targets that must be refused are sent)
+            if n.as_i64().map(|x| x < 0).unwrap_or(true) {
+                reqs.push(("goto", json!({"threadId": tid, "targetId": n})));
+            }
+            reqs.push(("breakpointLocations", json!({"source": src, "line": n, "endLine": n})));
+            reqs.push(("exceptionInfo", json!({"threadId": n})));
+            reqs.push(("terminateThreads", json!({"threadIds": [n]})));
+            reqs.push(("source", json!({"sourceReference": n})));
+            reqs.push(("modules", json!({"startModule": n, "moduleCount": n})));
+            reqs.push(("evaluate", json!({"expression": "v_u8", "frameId": n})));
+        }
+        for s in &strs {
+            reqs.push(("evaluate", json!({"expression": s, "frameId": fid})));
+            reqs.push(("evaluate", json!({"expression": s, "context": s})));
+            reqs.push(("setExpression", json!({"expression": s, "value": "1", "frameId": fid})));
+            reqs.push(("setExpression", json!({"expression": "v_u8", "value": s, "frameId": fid})));
+            reqs.push(("setVariable", json!({"variablesReference": vref, "name": s, "value": "1"})));
+            reqs.push(("setVariable", json!({"variablesReference": vref, "name": "v_i8", "value": s})));
+            reqs.push(("completions", json!({"text": s, "column": 1})));
+            reqs.push(("readMemory", json!({"memoryReference": s, "count": 8})));
+            reqs.push(("writeMemory", json!({"memoryReference": s, "data": "AAAA"})));
+            reqs.push(("writeMemory", json!({"memoryReference": "0x10", "data": s})));
+            reqs.push(("disassemble", json!({"memoryReference": s, "instructionCount": 4})));
+            reqs.push(("dataBreakpointInfo", json!({"name": s, "variablesReference": vref})));
+            reqs.push(("dataBreakpointInfo", json!({"name": s, "asAddress": true, "bytes": 8})));
+            reqs.push(("setDataBreakpoints", json!({"breakpoints": [{"dataId": s, "accessType": "write"}]})));
+            reqs.push(("breakpointLocations", json!({"source": {"path": s}, "line": 1})));
+            reqs.push(("source", json!({"source": {"path": s}, "sourceReference": 0})));
+        }
+        reqs.push(("setDataBreakpoints", json!({"breakpoints": []})));
+        reqs.push(("loadedSources", json!({})));
+        reqs.push(("variables", json!({})));
+        reqs.push(("readMemory", json!({})));
+        reqs.push(("evaluate", json!(null)));
+        reqs.push(("scopes", json!([1, 2])));
+        if let Ok(only) = std::env::var("BSMC_DAP_ONLY") {
+            let keep: Vec<&str> = only.split(',').collect();
+            reqs.retain(|(c, _)| keep.contains(c));
+        }
+        if let Ok(skip) = std::env::var("BSMC_DAP_SKIP") {
+            let drop: Vec<&str> = skip.split(',').collect();
+            reqs.retain(|(c, _)| !drop.contains(c));
+        }
+        let limit = if tier == Tier::Quick { reqs.len() } else { reqs.len() };
+        for (cmd, args) in reqs.into_iter().take(limit) {
+            part.evaluations += 1;
+            let t0 = std::time::Instant::now();
+            let r = d.send(cmd, args.clone()).map_err(|e| format!("after {} requests: {cmd} {args}: {e}", part.evaluations))?;
+            let ms = t0.elapsed().as_millis();
+            let n_resp = r["wire"].as_array().map(|w| w.iter().filter(|m| m["type"] == "response").count()).unwrap_or(0);
+            if n_resp != 1 {
+                part.violate("C08:dap-args:not-exactly-one-response", format!("{cmd} {args}: {n_resp} responses"), replay.clone());
+            }
+            if ms > 10_000 {
+                part.violate("C08:dap-args:request-hangs", format!("{cmd} {args}: {ms} ms"), replay.clone());
+            }
+            if r["resp"]["success"] == true {
+                part.distinct_nontrivial += 1;
+            }
+        }
+        // still alive and sane
+        let th = d.send("threads", json!({}))?;
+        if th["resp"]["success"] != true {
+            part.violate("C08:dap-args:adapter-unusable-afterwards", format!("threads -> {}", th["resp"]), replay.clone());
+        }
+        // (setVariable / setExpression / goto with accepted values legitimately change the program:
+        // the run to the end is only required to happen, not to print native values)
+        let fin = d.send("continue", json!({"threadId": tid}))?;
+        let ended = fin["wire"].as_array().map(|w| w.iter().any(|m| m["event"] == "exited" || m["event"] == "terminated" || m["event"] == "stopped")).unwrap_or(false);
+        if !ended {
+            let more = d.send("threads", json!({}))?;
+            part.violate("C08:dap-args:continue-does-not-come-back", format!("{} then threads -> {}", fin["wire"], more["wire"]), replay.clone());
+        }
+        part.sample(json!({"requests": part.evaluations, "accepted": part.distinct_nontrivial, "native_output_lines": native.lines().count()}));
+        Ok(())
+    })();
+    if let Err(e) = run {
+        part.violate("C08:dap-args:session-died", e, replay);
+    }
+    let _ = d.sess.end(Duration::from_secs(10));
+    part.states = part.evaluations;
+    part.traces_validated = 1;
+    part
+}
